@@ -208,6 +208,20 @@ def replay_case(judge):
 
 
 # ------------------------------------------------------------------------------------------------ config strategies
+POOL = [None]      # quick tier: generated cases take their configuration from a fixed pool of POOL[0] seeds (set by set_tier)
+
+
+def set_tier(ctx, pool=64):
+    POOL[0] = pool if ctx.tier == 'quick' else None
+
+
+def cfg_seed(cseed):
+    """seed for the configuration of a generated case: one of a fixed pool in the quick tier, free in the thorough tier"""
+    if POOL[0]:
+        return core.subseed(core.DEFAULT_SEED, 'cfg-pool', cseed % POOL[0])
+    return cseed
+
+
 def exclusions(ctx):
     """option exclusions carried by known findings: {'option': [values] | '*'}"""
     ex = {}
